@@ -44,7 +44,7 @@ def gen_sched(T, tier, n_hint=40):
     else:
         p_pre = T.weighted([(14, [0, 1]), (3, [1, 20]), (3, [3, 10])])
     cfg = {"policy": policy, "p_timer": p_timer, "p_preempt": p_pre}
-    cfg["p_gc"] = T.weighted([(12, [0, 1]), (1, [1, 100]), (1, [1, 15])])
+    cfg["p_gc"] = T.weighted([(12, [0, 1]), (1, [1, 400]), (1, [1, 80])])
     npts = T.draw(4)
     cfg["pct_points"] = [T.between(1, 60 + 12 * n_hint) for _ in range(npts)]
     cfg["starve"] = T.choice(ROLES)
@@ -152,9 +152,14 @@ class Engine:
         if prop == "C14" and tier == "thorough":
             nmax = 40
         n = T.draw(nmax + 1)
+        very_long = False
         if not enum and T.draw(14) == 0:
             # long stream: inbox backlogs beyond 128 messages become reachable
             n = 130 + T.draw(271)
+            if T.draw(25) == 0:
+                # very long stream with a starved writer: backlogs > 1024
+                n = 1100 + T.draw(500)
+                very_long = True
         extra = T.draw(bsz) if T.draw(3) == 0 else 0
         bd = C.block_dur_for(bsz, sr)
         w = bsz / sr
@@ -184,6 +189,10 @@ class Engine:
                 o["fmt"] = T.choice(["wav", "raw"])
                 o["silence_samples"] = T.choice([0, 0.4, 1, 1.5, 0.6, 2.75,
                                                  3.5, 7, 100])
+                if n <= 12 and sw * ch <= 2 and T.draw(25) == 0:
+                    # a gap of more than 2**20 samples (over a minute at
+                    # 16 kHz): beyond any plausible internal buffer size
+                    o["silence_samples"] = (1 << 20) + 7
             if kind == "region":
                 o["tmpl"] = T.draw(4)
             obs.append(o)
@@ -210,9 +219,33 @@ class Engine:
         sc["stop"] = stop
         sc["logger"] = T.draw(4) == 0
         sc["slow_disk"] = T.draw(3) == 0
+        # an earlier, finished pipeline (with its own stream saver) of the
+        # same process whose objects are garbage by now; collections are
+        # injected so that its finalisers run in the middle of this run
+        sc["prior_session"] = (not enum) and n <= 120 and T.draw(10) == 0
+        # ... or a second, independent pipeline (own source, own stream
+        # saver) running concurrently in the same process
+        sc["concurrent_session"] = (not enum) and n <= 120 \
+            and not sc["prior_session"] and T.draw(12) == 0
         sc["sched"] = gen_sched(T, tier, n)
         if n > 120:
             sc["sched"]["p_preempt"] = [0, 1]
+        if sc["prior_session"]:
+            sc["sched"]["p_gc"] = [1, 60]
+        if very_long:
+            sc["sched"]["policy"] = "starve"
+            sc["sched"]["starve"] = "StreamSaverWorker"
+            sc["sched"]["starve_k"] = 40000
+            sc["sched"]["p_gc"] = [0, 1]
+            sc["sched"]["stall"] = [0, 1]
+            if sc["saver"] is None:
+                sc["saver"] = {"fmt": "wav", "cache_blocks": 3,
+                               "timeout": 0.2}
+            sc["observers"] = sc["observers"][:1]
+            if stop is not None:
+                stop["kind"] = "read"
+                stop["j"] = n - T.draw(6)
+                stop["boost"] = 50
         if "pattern" not in sc:
             sc["pattern"] = C.gen_pattern(T, n)
         return sc
@@ -358,7 +391,41 @@ class Engine:
             # 'end': only the quiescence fallback fires it
             sim.on_quiescent = lambda: sim.fire_external("stop", "quiescent")
 
+        def other_session(concurrent):
+            d0 = data[::-1][:(6 + len(data) // (2 * bsz * sw * ch))
+                            * bsz * sw * ch]
+            d0 = d0[:len(d0) - len(d0) % (sw * ch)]
+            src0 = sources.SimAudioSource(d0, sr, sw, ch, label="src0")
+            rd0 = AudioReader(src0, block_dur=bd)
+            sv0 = W.StreamSaverWorker(rd0, os.path.join(tmp, "other.wav"),
+                                      cache_size_sec=3 * bsz / sr)
+            sv0.start()
+            ob0 = RecObs(0.2)
+            tk0 = W.TokenizerWorker(sv0, [ob0], **kw)
+            tk0.start_all()
+            if concurrent:
+                res["other"] = (tk0, ob0, sv0, src0)
+                return
+            tk0.join()
+            ob0.join()
+            sv0.join()
+            cyc = [tk0, sv0, ob0, rd0]
+            cyc.append(cyc)      # garbage only the cyclic collector frees
+            sim.note("prior_session.done")
+
+        def join_other():
+            tk0, ob0, sv0, src0 = res["other"]
+            tk0.join()
+            ob0.join()
+            sv0.join()
+            sv0.export_audio()
+            res["other_served"] = src0.served_bytes()
+
         def main():
+            if sc.get("prior_session"):
+                other_session(False)
+            elif sc.get("concurrent_session"):
+                other_session(True)
             src = sources.SimAudioSource(data, sr, sw, ch, stall=stall)
             rkw = {}
             if sc["max_read"] is not None:
@@ -421,6 +488,8 @@ class Engine:
                 if isinstance(o, W.AudioEventsJoinerWorker):
                     o.join()  # as cmdline.main does before exporting
                     o.export_audio()
+            if sc.get("concurrent_session"):
+                join_other()
             res["complete"] = True
 
         import gc
@@ -464,13 +533,19 @@ class Engine:
         p = out["probes"]
         c = sim.counters
         nd = res.get("_nd", 0)
+        mb = c.get("max_backlog", 0)
         if nd == 0:
             p["zero_detections"] = 1
         if c.get("timeout_then_item_present"):
             p["timeout_then_late_message"] = 1
+        if sc.get("prior_session"):
+            p["prior_session_garbage"] = 1
+        if sc.get("concurrent_session"):
+            p["second_pipeline_concurrently"] = 1
+        if mb >= 1024:
+            p["inbox_backlog_ge_1024"] = 1
         if c.get("marker_behind_backlog"):
             p["marker_behind_backlog"] = 1
-        mb = c.get("max_backlog", 0)
         if mb >= 128:
             p["inbox_backlog_ge_128"] = 1
         elif mb >= 16:
@@ -626,6 +701,18 @@ class Engine:
                 # engine online, L3); here only a probe
                 res["_read_after_eof"] = True
 
+        if res.get("other_served") is not None and prop in ("C13", "C14"):
+            try:
+                d_o, _ = C.read_wav(os.path.join(tmp, "other.wav"))
+            except Exception as e:
+                d_o = repr(e)
+            if d_o != res["other_served"]:
+                cl = "C13.1" if prop == "C13" else "C14.4"
+                return V(cl, "a second, independent pipeline running "
+                         "concurrently saved a stream that differs from what "
+                         "its own source served (%s vs %d bytes)" % (
+                             len(d_o) if isinstance(d_o, bytes) else d_o,
+                             len(res["other_served"])), cl + ":other_pipeline")
         if prop == "C13":
             v = self._judge_files(sc, res, E, tmp, W, V, "C13", base)
             if v is not None:
@@ -638,8 +725,10 @@ class Engine:
         if prop == "C14":
             # ---- C14.3 no premature end
             exit_seq = None
+            st_main_ = tok.__dict__.get("_sim_thread")
             for e in sim.log:
-                if e[2] == "exit" and e[1].startswith("TokenizerWorker"):
+                if e[2] == "exit" and st_main_ is not None \
+                        and e[1] == st_main_.role:
                     exit_seq = e[0]
             if not natural_end and exit_seq is not None \
                     and exit_seq < res["stop_seq"]:
@@ -654,15 +743,18 @@ class Engine:
             # the request), at most the read in flight plus two more may be
             # started - not the rest of the stream
             jseq = None
+            st_main = tok.__dict__.get("_sim_thread")
+            main_role = st_main.role if st_main is not None else None
             for e in sim.log:
                 if e[0] > res["stop_seq"] and e[1] == "main" \
-                        and e[2] == "join" \
-                        and str(e[3]).startswith("TokenizerWorker"):
+                        and e[2] == "join" and e[3] == main_role:
                     jseq = e[0]
                     break
             if jseq is not None:
+                # reads of this pipeline's own source only
                 late = sum(1 for e in sim.log
-                           if e[0] > jseq and e[2] == "src.read")
+                           if e[0] > jseq and e[2] == "src.read"
+                           and e[1] == main_role)
                 res["_late_reads"] = late
                 if late > 3:
                     return V("C14.6", "%d source reads were started after "
